@@ -133,6 +133,9 @@ class ThermochemIncomplete(ThermochemBase):
                 "Cannot evaluate ND_Cp: no heat capacity data is available")
         else:
             try:
+                # the range may have been changed since the table
+                # correlation was built (set_range)
+                self.check_range(T)
                 return self._correlation.get_CpoR(T)
             except OutsideCorrelationError:
                 raise IncompleteDataError(
@@ -146,7 +149,9 @@ class ThermochemIncomplete(ThermochemBase):
             raise IncompleteDataError(
                 "Cannot evaluate ND_H: no enthalpy data is available")
         elif not self.ND_Cp_data:
-            if T != self.T_ref:
+            if T != self.T_ref or (
+                    self.range is not None and
+                    not self.range[0] <= T <= self.range[1]):
                 warn(
                     "Evaluation of ND_H_ref with (T=%g <=> T_ref=%g) will not"
                     " be corrected because heat capacity data is not"
@@ -155,6 +160,9 @@ class ThermochemIncomplete(ThermochemBase):
             return self.ND_H_ref
         else:
             try:
+                # the range may have been changed since the table
+                # correlation was built (set_range)
+                self.check_range(T)
                 return self._correlation.get_HoRT(T)
             except OutsideCorrelationError:
                 raise IncompleteDataError(
@@ -167,7 +175,9 @@ class ThermochemIncomplete(ThermochemBase):
             raise IncompleteDataError(
                 "Cannot evaluate ND_S: no entropy data is available")
         elif not self.ND_Cp_data:
-            if T != self.T_ref:
+            if T != self.T_ref or (
+                    self.range is not None and
+                    not self.range[0] <= T <= self.range[1]):
                 warn(
                     "Evaluation of ND_S_ref with (T=%g <=> T_ref=%g) will not"
                     " be corrected because heat capacity data is not"
@@ -176,6 +186,9 @@ class ThermochemIncomplete(ThermochemBase):
             return self.ND_S_ref
         else:
             try:
+                # the range may have been changed since the table
+                # correlation was built (set_range)
+                self.check_range(T)
                 return self._correlation.get_SoR(T)
             except OutsideCorrelationError:
                 raise IncompleteDataError(
